@@ -563,18 +563,19 @@ class HelicityAmplitudeBuilder:
     def __generate_amplitude_prefactor(
         self, transition: StateTransition
     ) -> sp.Rational | None:
-        prefactor = get_prefactor(transition)
-        if prefactor != 1.0:
-            for node_id in transition.topology.nodes:
-                raw_suffix = self.naming.generate_two_body_decay_suffix(
-                    transition, node_id
-                )
-                if raw_suffix in self.naming.parity_partner_coefficient_mapping:
-                    coefficient_suffix = self.naming.parity_partner_coefficient_mapping[
-                        raw_suffix
-                    ]
-                    if coefficient_suffix != raw_suffix:
-                        return sp.Rational(prefactor)
+        prefactor = 1.0
+        is_parity_partner = False
+        mapping = self.naming.parity_partner_coefficient_mapping
+        for node_id in transition.topology.nodes:
+            raw_suffix = self.naming.generate_two_body_decay_suffix(transition, node_id)
+            if mapping.get(raw_suffix, raw_suffix) == raw_suffix:
+                continue
+            is_parity_partner = True
+            node_prefactor = transition.interactions[node_id].parity_prefactor
+            if node_prefactor is not None:
+                prefactor *= node_prefactor
+        if is_parity_partner and get_prefactor(transition) != 1.0:
+            return sp.Rational(prefactor)
         return None
 
 
